@@ -31,102 +31,371 @@ theorem multiStep_sub (s0 : St) (c : MultiCtx) (d : Decided) (isSil : Int) (i : 
   dsimp only at h hok' ⊢
   generalize hs : subSt c i a.st = s at hok' ⊢
   generalize hfi : subIn c d isSil i a.st a.totSize = fi at hok' ⊢
-    by_cases hok : (a.ok && frameOk s fi fo && tocStable a.cfg0 (frameNative s fi fo)) = true
-    · simp only [Bool.and_eq_true] at hok
-      obtain ⟨⟨hao, hfo⟩, hts⟩ := hok
-      have g := h hao
-      obtain ⟨f1, f2, f3, f4, f5, f6⟩ := subSt_fields c i a.st
-      rw [hs] at f1 f2 f3 f4 f5 f6
-      have hq : cmQ a.st c = cmQ s0 c := by unfold cmQ; rw [g.bitrateBps, g.fs]
-      obtain ⟨hq1, hq2⟩ := hp.q
-      have hfit := hp.fit
-      have hmul : ((i : Int) + 1) * cmQ s0 c ≤ c.nbFrames * cmQ s0 c :=
-        Int.mul_le_mul_of_nonneg_right (by omega) (by omega)
-      have hexp : ((i : Int) + 1) * cmQ s0 c = i * cmQ s0 c + cmQ s0 c := by rw [Int.add_mul]; omega
-      have hcm : fi.maxDataBytes = cmQ s0 c := by
-        rw [← hfi]; unfold subIn; dsimp only
-        rw [currMax_eq a.st c a.totSize (by rw [hq]; have := g.tot; omega), hq]
-      have hfsz : fi.frameSize = c.encFs := by rw [← hfi]; rfl
-      have hpre : FramePre s fi := by
-        refine ⟨by omega, by omega, ?_, ?_⟩
-        · rw [f1, g.mode]; exact hp.mode
-        · rw [f1, f2, g.mode, g.bandwidth]; exact hp.bwS
-      have hpost := frameNative_post s fi fo hpre hfo
-      generalize frameNative s fi fo = r at *
-      obtain ⟨p1, p2, p3, p4, p5, p6, p7, p8, p9⟩ := hpost
-      rw [if_neg (by rw [p1]; simp), if_neg (by omega)]
-      -- the ToC of this sub-frame announces the coded duration
-      have htoc : ∃ bw, r.toc = genToc s0.mode (s0.fs / c.encFs) bw s0.streamChannels ∧
-          (s0.mode ≠ MODE_SILK_ONLY → bw = s0.bandwidth) ∧
-          (s0.mode = MODE_SILK_ONLY → bw = BW_NB ∨ bw = BW_MB ∨ bw = BW_WB) := by
-        obtain ⟨bw, ht, hb1, hb2⟩ := p8
-        rw [hfsz, f3, g.fs, f1, g.mode, f6, g.streamChannels] at ht
-        rw [f1, g.mode] at hb1 hb2
-        rw [f2, g.bandwidth] at hb1
-        exact ⟨bw, ht, hb1, hb2⟩
-      have hspf : Framing.samplesPerFrame r.toc 8000 = spf8k (s0.fs / c.encFs) := by
-        obtain ⟨bw, ht, hb1, hb2⟩ := htoc
-        rw [ht]
-        apply genToc_spf8k
-        have hmode := hp.mode
-        unfold ModeOk at hmode
-        rcases hmode with hm | hm | hm
-        · left
-          refine ⟨hm, ?_, hb2 hm⟩
-          rcases hp.rate with h | ⟨_, _, h | h⟩
-          · exact Or.inl h
-          · exact Or.inr (Or.inl h)
-          · exact Or.inr (Or.inr h)
-        · right; left
-          have hne : s0.mode ≠ MODE_SILK_ONLY := by rw [hm]; decide
-          refine ⟨hm, ?_, by rw [hb1 hne]; exact hp.bwH hm⟩
-          rcases hp.rate with h | ⟨h, _⟩
-          · exact h
-          · exact absurd h hne
-        · right; right
-          have hne : s0.mode ≠ MODE_SILK_ONLY := by rw [hm]; decide
-          refine ⟨hm, ?_, by rw [hb1 hne]; exact hp.bwC.1, by rw [hb1 hne]; exact hp.bwC.2⟩
-          rcases hp.rate with h | ⟨h, _⟩
-          · exact h
-          · exact absurd h hne
-      have hnsp := nb_spf s0 c hp i hi
-      have hcat : catSpec a.cfg0 a.lens.length
-          { tocCfg := r.toc, lens := [r.payload.toNat], size := r.ret.toNat, hdr := r.hdr } = OPUS_OK ∧
-          (match a.cfg0 with | none => some r.toc | some c0 => some c0) = some r.toc := by
-        unfold catSpec
+  by_cases hok : (a.ok && frameOk s fi fo && tocStable a.cfg0 (frameNative s fi fo)) = true
+  · simp only [Bool.and_eq_true] at hok
+    obtain ⟨⟨hao, hfo⟩, hts⟩ := hok
+    have g := h hao
+    obtain ⟨f1, f2, f3, f4, f5, f6⟩ := subSt_fields c i a.st
+    rw [hs] at f1 f2 f3 f4 f5 f6
+    have hq : cmQ a.st c = cmQ s0 c := by unfold cmQ; rw [g.bitrateBps, g.fs]
+    obtain ⟨hq1, hq2⟩ := hp.q
+    have hfit := hp.fit
+    have hmul : ((i : Int) + 1) * cmQ s0 c ≤ c.nbFrames * cmQ s0 c :=
+      Int.mul_le_mul_of_nonneg_right (by omega) (by omega)
+    have hexp : ((i : Int) + 1) * cmQ s0 c = i * cmQ s0 c + cmQ s0 c := by rw [Int.add_mul]; omega
+    have hcm : fi.maxDataBytes = cmQ s0 c := by
+      rw [← hfi]; unfold subIn; dsimp only
+      rw [currMax_eq a.st c a.totSize (by rw [hq]; have := g.tot; omega), hq]
+    have hfsz : fi.frameSize = c.encFs := by rw [← hfi]; rfl
+    have hpre : FramePre s fi := by
+      refine ⟨by omega, by omega, ?_, ?_⟩
+      · rw [f1, g.mode]; exact hp.mode
+      · rw [f1, f2, g.mode, g.bandwidth]; exact hp.bwS
+    have hpost := frameNative_post s fi fo hpre hfo
+    generalize frameNative s fi fo = r at *
+    obtain ⟨p1, p2, p3, p4, p5, p6, p7, p8, p9⟩ := hpost
+    rw [if_neg (by rw [p1]; simp), if_neg (by omega)]
+    -- the ToC of this sub-frame announces the coded duration
+    have htoc : ∃ bw, r.toc = genToc s0.mode (s0.fs / c.encFs) bw s0.streamChannels ∧
+        (s0.mode ≠ MODE_SILK_ONLY → bw = s0.bandwidth) ∧
+        (s0.mode = MODE_SILK_ONLY → bw = BW_NB ∨ bw = BW_MB ∨ bw = BW_WB) := by
+      obtain ⟨bw, ht, hb1, hb2⟩ := p8
+      rw [hfsz, f3, g.fs, f1, g.mode, f6, g.streamChannels] at ht
+      rw [f1, g.mode] at hb1 hb2
+      rw [f2, g.bandwidth] at hb1
+      exact ⟨bw, ht, hb1, hb2⟩
+    have hspf : Framing.samplesPerFrame r.toc 8000 = spf8k (s0.fs / c.encFs) := by
+      obtain ⟨bw, ht, hb1, hb2⟩ := htoc
+      rw [ht]
+      apply genToc_spf8k
+      have hmode := hp.mode
+      unfold ModeOk at hmode
+      rcases hmode with hm | hm | hm
+      · left
+        refine ⟨hm, ?_, hb2 hm⟩
+        rcases hp.rate with h | ⟨_, _, h | h⟩
+        · exact Or.inl h
+        · exact Or.inr (Or.inl h)
+        · exact Or.inr (Or.inr h)
+      · right; left
+        have hne : s0.mode ≠ MODE_SILK_ONLY := by rw [hm]; decide
+        refine ⟨hm, ?_, by rw [hb1 hne]; exact hp.bwH hm⟩
+        rcases hp.rate with h | ⟨h, _⟩
+        · exact h
+        · exact absurd h hne
+      · right; right
+        have hne : s0.mode ≠ MODE_SILK_ONLY := by rw [hm]; decide
+        refine ⟨hm, ?_, by rw [hb1 hne]; exact hp.bwC.1, by rw [hb1 hne]; exact hp.bwC.2⟩
+        rcases hp.rate with h | ⟨h, _⟩
+        · exact h
+        · exact absurd h hne
+    have hnsp := nb_spf s0 c hp i hi
+    have hcat : catSpec a.cfg0 a.lens.length
+        { tocCfg := r.toc, lens := [r.payload.toNat], size := r.ret.toNat, hdr := r.hdr } = OPUS_OK ∧
+        (match a.cfg0 with | none => some r.toc | some c0 => some c0) = some r.toc := by
+      unfold catSpec
+      dsimp only
+      rw [if_neg (by omega), g.len]
+      by_cases hi0 : i = 0
+      · rw [g.cfg0 hi0]
         dsimp only
-        rw [if_neg (by omega), g.len]
-        by_cases hi0 : i = 0
-        · rw [g.cfg0 hi0]
-          dsimp only
-          subst hi0
-          simp only [Bool.false_eq_true, if_false, List.length_cons, List.length_nil, hspf]
-          rw [if_neg (by simp), if_neg (by simp at hnsp ⊢; omega), if_neg (by simp; omega)]
-          exact ⟨rfl, by simp⟩
-        · obtain ⟨t, _, ht, _, _, _⟩ := g.cfgS (by omega)
-          rw [ht] at hts ⊢
-          unfold tocStable at hts
-          simp only [Bool.or_eq_true, decide_eq_true_eq] at hts
-          have htt : t = r.toc := by
-            rcases hts with h' | h'
-            · omega
-            · exact h'
-          subst htt
-          dsimp only
-          simp only [List.length_cons, List.length_nil, hspf]
-          rw [if_neg (by simp), if_neg (by simp), if_neg (by simp at hnsp ⊢; omega), if_neg (by simp; omega)]
-          exact ⟨rfl, by simp⟩
-      rw [hcat.1, if_neg (by decide)]
-      refine ⟨rfl, hcat.2, ?_, frame_sub s fi r ⟨p1, p2, p3, p4, p5, p6, p7, p8, p9⟩⟩
-      intro t ht
-      have := hcat.2
-      rw [ht] at this
-      simpa using this
-    · have hokf : (a.ok && frameOk s fi fo && tocStable a.cfg0 (frameNative s fi fo)) = false := by
-        simpa using hok
-      rw [hokf] at hok'
+        subst hi0
+        simp only [Bool.false_eq_true, if_false, List.length_cons, List.length_nil, hspf]
+        rw [if_neg (by simp), if_neg (by simp at hnsp ⊢; omega), if_neg (by simp; omega)]
+        exact ⟨rfl, by simp⟩
+      · obtain ⟨t, _, ht, _, _, _⟩ := g.cfgS (by omega)
+        rw [ht] at hts ⊢
+        unfold tocStable at hts
+        simp only [Bool.or_eq_true, decide_eq_true_eq] at hts
+        have htt : t = r.toc := by
+          rcases hts with h' | h'
+          · omega
+          · exact h'
+        subst htt
+        dsimp only
+        simp only [List.length_cons, List.length_nil, hspf]
+        rw [if_neg (by simp), if_neg (by simp), if_neg (by simp at hnsp ⊢; omega), if_neg (by simp; omega)]
+        exact ⟨rfl, by simp⟩
+    rw [hcat.1, if_neg (by decide)]
+    refine ⟨rfl, hcat.2, ?_, frame_sub s fi r ⟨p1, p2, p3, p4, p5, p6, p7, p8, p9⟩⟩
+    intro t ht
+    have := hcat.2
+    rw [ht] at this
+    simpa using this
+  · have hokf : (a.ok && frameOk s fi fo && tocStable a.cfg0 (frameNative s fi fo)) = false := by
+      simpa using hok
+    rw [hokf] at hok'
+    exfalso
+    repeat' split at hok'
+    all_goals simp at hok'
+
+/-- The frame calls of the loop, in order (same recursion as `multiLoop`). -/
+def multiTrace (c : MultiCtx) (d : Decided) (isSil : Int) : Nat → Nat → List FrameOr → MultiAcc → List FrameRes
+  | 0, _, _, _ => []
+  | n + 1, i, fos, a =>
+    stepRes c d isSil i (fos.headD default) a ::
+      multiTrace c d isSil n (i + 1) fos.tail (multiStep c d isSil i (fos.headD default) a)
+
+theorem multiStep_fail_some (c : MultiCtx) (d : Decided) (isSil : Int) (i : Nat) (fo : FrameOr) (a : MultiAcc) (r : NatRes)
+    (h : a.fail = some r) : multiStep c d isSil i fo a = a := by
+  unfold multiStep; rw [h]
+
+theorem multiLoop_fail_some (c : MultiCtx) (d : Decided) (isSil : Int) (n : Nat) :
+    ∀ (i : Nat) (fos : List FrameOr) (a : MultiAcc) (r : NatRes), a.fail = some r → multiLoop c d isSil n i fos a = a := by
+  induction n with
+  | zero => intro i fos a r _; rfl
+  | succ n ih =>
+    intro i fos a r h
+    unfold multiLoop
+    rw [multiStep_fail_some c d isSil i _ a r h]
+    exact ih (i + 1) fos.tail a r h
+
+theorem multiStep_ok_mono (c : MultiCtx) (d : Decided) (isSil : Int) (i : Nat) (fo : FrameOr) (a : MultiAcc)
+    (h : (multiStep c d isSil i fo a).ok = true) : a.ok = true := by
+  cases hf : a.fail with
+  | some r => rw [multiStep_fail_some c d isSil i fo a r hf] at h; exact h
+  | none =>
+    unfold multiStep at h
+    rw [hf] at h
+    dsimp only at h
+    repeat' split at h
+    all_goals (simp only [Bool.and_eq_true] at h; exact h.1.1)
+
+theorem multiLoop_ok_mono (c : MultiCtx) (d : Decided) (isSil : Int) (n : Nat) :
+    ∀ (i : Nat) (fos : List FrameOr) (a : MultiAcc), (multiLoop c d isSil n i fos a).ok = true → a.ok = true := by
+  induction n with
+  | zero => intro i fos a h; exact h
+  | succ n ih =>
+    intro i fos a h
+    unfold multiLoop at h
+    exact multiStep_ok_mono c d isSil i _ a (ih _ _ _ h)
+
+theorem multiLoop_fail_mono (c : MultiCtx) (d : Decided) (isSil : Int) (n i : Nat) (fos : List FrameOr) (a : MultiAcc)
+    (h : (multiLoop c d isSil n i fos a).fail = none) : a.fail = none := by
+  cases hf : a.fail with
+  | none => rfl
+  | some r => rw [multiLoop_fail_some c d isSil n i fos a r hf, hf] at h; cases h
+
+theorem multiStep_cfg0 (c : MultiCtx) (d : Decided) (isSil : Int) (i : Nat) (fo : FrameOr) (a : MultiAcc) (t : Nat)
+    (h : a.cfg0 = some t) : (multiStep c d isSil i fo a).cfg0 = some t := by
+  cases hf : a.fail with
+  | some r => rw [multiStep_fail_some c d isSil i fo a r hf]; exact h
+  | none =>
+    unfold multiStep
+    rw [hf]
+    dsimp only
+    split
+    · exact h
+    · split
+      · exact h
+      · split
+        · exact h
+        · dsimp only; rw [h]
+
+theorem multiLoop_cfg0 (c : MultiCtx) (d : Decided) (isSil : Int) (n : Nat) :
+    ∀ (i : Nat) (fos : List FrameOr) (a : MultiAcc) (t : Nat), a.cfg0 = some t →
+      (multiLoop c d isSil n i fos a).cfg0 = some t := by
+  induction n with
+  | zero => intro i fos a t h; exact h
+  | succ n ih =>
+    intro i fos a t h
+    unfold multiLoop
+    exact ih _ _ _ t (multiStep_cfg0 c d isSil i _ a t h)
+
+/-- What is known of every frame call of a loop that ended without failure and within the contracts. -/
+def TraceOk (tr : List FrameRes) (cfg : Option Nat) : Prop :=
+  ∀ r ∈ tr, cfg = some r.toc ∧
+    ∃ m pd, outRange r.toc [r.payload.toNat] m pd = .ok { size := r.ret.toNat, hdr := r.hdr }
+
+theorem multiLoop_trace (s0 : St) (c : MultiCtx) (d : Decided) (isSil : Int) (hp : MultiPre s0 c) :
+    ∀ (n i : Nat) (fos : List FrameOr) (a : MultiAcc), Inv s0 c i a → ((i : Int) + n ≤ c.nbFrames) →
+      (multiLoop c d isSil n i fos a).fail = none → (multiLoop c d isSil n i fos a).ok = true →
+      (multiLoop c d isSil n i fos a).lens = a.lens ++ (multiTrace c d isSil n i fos a).map (·.payload.toNat) ∧
+      TraceOk (multiTrace c d isSil n i fos a) (multiLoop c d isSil n i fos a).cfg0 := by
+  intro n
+  induction n with
+  | zero =>
+    intro i fos a _ _ _ _
+    exact ⟨by simp [multiLoop, multiTrace], by intro r hr; simp [multiTrace] at hr⟩
+  | succ n ih =>
+    intro i fos a h hle hf hok
+    unfold multiLoop at hf hok ⊢
+    unfold multiTrace
+    have hf1 := multiLoop_fail_mono c d isSil n (i + 1) fos.tail _ hf
+    have hok1 := multiLoop_ok_mono c d isSil n (i + 1) fos.tail _ hok
+    have hfa : a.fail = none := by
+      cases hfa : a.fail with
+      | none => rfl
+      | some r => rw [multiStep_fail_some c d isSil i _ a r hfa, hfa] at hf1; cases hf1
+    obtain ⟨s1, s2, _, s4⟩ := multiStep_sub s0 c d isSil i (fos.headD default) a hp (by omega) h hfa hok1
+    have hs := multiStep_inv s0 c d isSil i (fos.headD default) a hp (by omega) h
+    obtain ⟨l1, l2⟩ := ih (i + 1) fos.tail _ hs (by push_cast; omega) hf hok
+    refine ⟨?_, ?_⟩
+    · rw [l1, s1]; simp
+    · intro r hr
+      rcases List.mem_cons.mp hr with rfl | hr
+      · exact ⟨multiLoop_cfg0 c d isSil n _ _ _ _ s2, s4⟩
+      · exact l2 r hr
+
+/-- **The sub-packets of the multi-frame path.**  When `multiFrame` (opus_encoder.c:1616-1747) returns a packet
+    within the contracts: the frame lengths of the packet are the payload lengths of the loop's frame calls, in order;
+    every frame call returned a contract-shaped packet carrying the ToC configuration of the final packet; and the
+    final packet is the contract output for `maxlen = repacketize_len`. -/
+theorem multiFrame_trace (d : Decided) (isSil fsz out cbr : Int) (fos : List FrameOr)
+    (hp : MultiPre d.st (multiCtx d.st fsz out cbr))
+    (hok : (multiFrame d isSil fsz out cbr fos).ok = true) (hret : 1 ≤ (multiFrame d isSil fsz out cbr fos).ret) :
+    (multiFrame d isSil fsz out cbr fos).pkt.lens =
+      (multiTrace (multiCtx d.st fsz out cbr) d isSil (multiCtx d.st fsz out cbr).nbFrames.toNat 0 fos
+        (acc0 (multiSt0 d.st))).map (·.payload.toNat) ∧
+    TraceOk (multiTrace (multiCtx d.st fsz out cbr) d isSil (multiCtx d.st fsz out cbr).nbFrames.toNat 0 fos
+        (acc0 (multiSt0 d.st))) (some (multiFrame d isSil fsz out cbr fos).pkt.tocCfg) ∧
+    ∃ pad, outRange (multiFrame d isSil fsz out cbr fos).pkt.tocCfg (multiFrame d isSil fsz out cbr fos).pkt.lens
+        (multiCtx d.st fsz out cbr).repacketizeLen.toNat pad =
+      .ok { size := (multiFrame d isSil fsz out cbr fos).pkt.size, hdr := (multiFrame d isSil fsz out cbr fos).pkt.hdr } := by
+  unfold multiFrame at hok hret ⊢
+  dsimp only at hok hret ⊢
+  generalize multiCtx d.st fsz out cbr = c at *
+  obtain ⟨m1, m2, m3, m4, m5, m6⟩ := multiSt0_fields d.st
+  have h0 := inv_start d.st c (multiSt0 d.st) ⟨m1, m2, m3, m4, m5, m6⟩
+  obtain ⟨hnb2, hnb6⟩ := hp.nb
+  have hl := multiLoop_inv d.st c d isSil hp c.nbFrames.toNat 0 fos _ h0 (by omega)
+  have ht := multiLoop_trace d.st c d isSil hp c.nbFrames.toNat 0 fos _ h0 (by omega)
+  have hacc : ({ st := multiSt0 d.st, totSize := 0, dtxCount := 0, cfg0 := none, lens := [], calls := [], ok := true, fail := none } : MultiAcc) = acc0 (multiSt0 d.st) := rfl
+  rw [hacc] at hok hret ⊢
+  generalize multiTrace c d isSil c.nbFrames.toNat 0 fos (acc0 (multiSt0 d.st)) = tr at *
+  generalize multiLoop c d isSil c.nbFrames.toNat 0 fos (acc0 (multiSt0 d.st)) = a at *
+  unfold Inv at hl
+  cases hf : a.fail with
+  | some r =>
+    rw [hf] at hl hok
+    dsimp only at hl hok
+    rw [hl] at hok; cases hok
+  | none =>
+    rw [hf] at hl hok hret
+    dsimp only at hl hok hret ⊢
+    have hao : a.ok = true := by
+      split at hok <;> exact hok
+    obtain ⟨t1, t2⟩ := ht hf hao
+    have g := hl hao
+    rw [Nat.zero_add] at g
+    obtain ⟨t, bw, hcfg, _⟩ := g.cfgS (by omega)
+    have hgetD : a.cfg0.getD 0 = t := by rw [hcfg]; rfl
+    split
+    · rename_i r hr
+      dsimp only
+      refine ⟨by simpa [acc0] using t1, ?_, ⟨_, hr⟩⟩
+      rw [hgetD, ← hcfg]; exact t2
+    · rename_i e he
+      rw [he] at hret
+      simp [natErr, OPUS_INTERNAL_ERROR] at hret
+    · rename_i hne1 hne2
       exfalso
-      repeat' split at hok'
-      all_goals simp at hok'
+      split at hret
+      · exact hne1 _ (by assumption)
+      · exact hne2 _ (by assumption)
+      · simp [natErr, OPUS_INTERNAL_ERROR] at hret
+
+/-- The bytes the frame call `r` wrote for payload contents `f` (header, payload, zero padding up to `ret`). -/
+def subBytes (r : FrameRes) (f : Bytes) : Bytes := pktBytes r.hdr [f] r.ret.toNat
+
+theorem trace_subs (cfg : Nat) : ∀ (tr : List FrameRes) (frames : List Bytes),
+    TraceOk tr (some cfg) → frames.map List.length = tr.map (·.payload.toNat) →
+    ∃ subs : List Sub, subs.map (subPkt cfg) = List.zipWith subBytes tr frames ∧ subs.flatMap (·.1) = frames ∧
+      ∀ x ∈ subs, SubOk cfg x := by
+  intro tr
+  induction tr with
+  | nil =>
+    intro frames _ hfl
+    have : frames = [] := by simpa using hfl
+    subst this
+    exact ⟨[], rfl, rfl, by intro x hx; cases hx⟩
+  | cons r tr ih =>
+    intro frames htr hfl
+    cases frames with
+    | nil => simp at hfl
+    | cons f fs =>
+      simp only [List.map_cons, List.cons.injEq] at hfl
+      obtain ⟨hf, hfs⟩ := hfl
+      obtain ⟨hc, m, pd, hout⟩ := htr r (by simp)
+      have hcfg : cfg = r.toc := by simpa using hc
+      obtain ⟨subs, h1, h2, h3⟩ := ih fs (fun x hx => htr x (by simp [hx])) hfs
+      refine ⟨([f], m, pd) :: subs, ?_, ?_, ?_⟩
+      · simp only [List.map_cons, List.zipWith_cons_cons, h1, List.cons.injEq, and_true]
+        unfold subPkt subBytes
+        simp only [List.map_cons, List.map_nil, hf, hcfg, hout]
+      · simp [h2]
+      · intro x hx
+        rcases List.mem_cons.mp hx with rfl | hx
+        · exact ⟨by simp, _, by simp only [List.map_cons, List.map_nil, hf, hcfg]; exact hout⟩
+        · exact h3 x hx
+
+theorem encodeNative_multi_eq (s : St) (fuzz : Bool) (fsz out : Int) (o : NatOr)
+    (he : entryCheck s fsz out = none) (htm : takesMulti s fuzz fsz out o = true) :
+    encodeNative s fuzz fsz out o =
+      { multiOf s fuzz fsz out o with ok := (stOk s && legalFrame s.fs fsz) && (multiOf s fuzz fsz out o).ok } := by
+  unfold takesMulti at htm
+  simp only [Bool.and_eq_true, Bool.not_eq_true'] at htm
+  obtain ⟨hg, hmu⟩ := htm
+  unfold encodeNative
+  rw [he]
+  dsimp only
+  rw [if_neg (by rw [hg]; simp), if_pos hmu]
+
+/-- **wellformed_multiframe for `opus_encode_native`.**  On the multi-frame path (opus_encoder.c:1616-1747), for every
+    success return within the contracts and ANY payload contents of the recorded lengths: the frame lengths of the
+    packet are the payload lengths of the loop's frame calls, and the repacketiser MODEL run — `init`, one `cat` per
+    sub-frame on exactly the bytes that frame call wrote (`subBytes`: code 0, 1-byte DTX, or padded code 3),
+    `out_range_impl(rp, 0, nb_frames, data, repacketize_len, 0, pad, NULL, 0)` — accepts every `cat` and returns
+    exactly the emitted bytes. -/
+theorem encode_multi_wf (s : St) (fuzz : Bool) (fsz out : Int) (o : NatOr)
+    (he : entryCheck s fsz out = none) (htm : takesMulti s fuzz fsz out o = true)
+    (hok : (encodeNative s fuzz fsz out o).ok = true)
+    (frames : List Bytes) (hfl : frames.map List.length = (encodeNative s fuzz fsz out o).pkt.lens) :
+    (multiTrace (ctxOf s fuzz fsz out o) (decOf s fuzz fsz out o) (effSilence (budgetSt s o fsz out) o)
+        (ctxOf s fuzz fsz out o).nbFrames.toNat 0 o.frames (acc0 (multiSt0 (decOf s fuzz fsz out o).st))).map
+      (·.payload.toNat) = (encodeNative s fuzz fsz out o).pkt.lens ∧
+    ∃ pad, repackRun
+        (List.zipWith subBytes
+          (multiTrace (ctxOf s fuzz fsz out o) (decOf s fuzz fsz out o) (effSilence (budgetSt s o fsz out) o)
+            (ctxOf s fuzz fsz out o).nbFrames.toNat 0 o.frames (acc0 (multiSt0 (decOf s fuzz fsz out o).st)))
+          frames)
+        frames.length (ctxOf s fuzz fsz out o).repacketizeLen.toNat pad =
+      .ok (pktBytes (encodeNative s fuzz fsz out o).pkt.hdr frames (encodeNative s fuzz fsz out o).pkt.size) := by
+  have hp := encodeNative_pkt s fuzz fsz out o he hok
+  have heq := encodeNative_multi_eq s fuzz fsz out o he htm
+  rw [heq] at hok hfl hp ⊢
+  dsimp only at hok hfl hp ⊢
+  simp only [Bool.and_eq_true] at hok
+  obtain ⟨⟨hst, hlg⟩, hmok⟩ := hok
+  obtain ⟨hpost, _, _, hpre, _⟩ := multi_branch s fuzz fsz out o he htm hst hlg hmok
+  obtain ⟨t1, t2, pad, t3⟩ := multiFrame_trace (decOf s fuzz fsz out o) (effSilence (budgetSt s o fsz out) o) fsz out
+    (sizeBudget (analysisUpd s o) fsz out).cbr o.frames hpre hmok hpost.retLo
+  obtain ⟨_, _, h4, h256, hlens, hd48, _⟩ := hp
+  dsimp only at h4 h256 hlens hd48
+  refine ⟨t1.symm, pad, ?_⟩
+  generalize multiTrace (ctxOf s fuzz fsz out o) (decOf s fuzz fsz out o) (effSilence (budgetSt s o fsz out) o)
+            (ctxOf s fuzz fsz out o).nbFrames.toNat 0 o.frames (acc0 (multiSt0 (decOf s fuzz fsz out o).st)) = tr at *
+  generalize (ctxOf s fuzz fsz out o).repacketizeLen.toNat = maxlen at *
+  unfold multiOf at *
+  generalize multiFrame (decOf s fuzz fsz out o) (effSilence (budgetSt s o fsz out) o) fsz out
+    (sizeBudget (analysisUpd s o) fsz out).cbr o.frames = r at *
+  obtain ⟨subs, s1, s2, s3⟩ := trace_subs r.pkt.tocCfg tr frames t2 (by rw [hfl, t1])
+  have hlne : r.pkt.lens ≠ [] := by
+    intro h; rw [h] at t3; simp [EncSkel.outRange] at t3
+  have hfne : frames ≠ [] := by
+    intro h; apply hlne; rw [← hfl, h]; rfl
+  have hne : subs ≠ [] := by intro h; rw [h] at s2; exact hfne s2.symm
+  have hlen : frames.length = r.pkt.lens.length := by rw [← hfl]; simp
+  have h8 := (RepackProofs.frameDur48_spf8 r.pkt.tocCfg (List.mem_range.mpr h256)).1
+  have hd8 : (subs.flatMap (·.1)).length * Framing.samplesPerFrame r.pkt.tocCfg 8000 ≤ 960 := by
+    rw [s2, hlen]; rw [h8] at hd48
+    have : 6 * (r.pkt.lens.length * Framing.samplesPerFrame r.pkt.tocCfg 8000) ≤ 5760 := by
+      rw [Nat.mul_comm (r.pkt.lens.length), ← Nat.mul_assoc]; exact hd48
+    omega
+  have hle : ∀ f ∈ subs.flatMap (·.1), f.length ≤ 1275 := by
+    rw [s2]; intro f hf; apply hlens; rw [← hfl]; exact List.mem_map.mpr ⟨f, hf, rfl⟩
+  have := repackRun_contract r.pkt.tocCfg subs h4 h256 s3 hne hle hd8 maxlen pad
+  rw [s1, s2, hfl, t3] at this
+  exact this
 
 end Opus.EncSkel.Proofs
